@@ -66,6 +66,17 @@ def reset_module_state():
     m.quic_sessions.clear()
 
 
+RUN_LIMIT = float(os.environ.get("VERIF_RUN_LIMIT", "180"))      # seconds per in-process run (typical runs take 10-500 ms)
+
+
+class RunTimeout(BaseException):
+    pass
+
+
+def _watchdog(*_a):
+    raise RunTimeout(f"run() did not terminate within {RUN_LIMIT:.0f} s")
+
+
 def run_inproc(capture: bytes, keylog_text=None, opts=(), legacy=False, trace=False, reset=True, infile_name=None,
                keep_files=False):
     """opts: extra CLI arguments.  keylog_text None => no -s option is passed."""
@@ -102,6 +113,13 @@ def run_inproc(capture: bytes, keylog_text=None, opts=(), legacy=False, trace=Fa
     sys.argv = argv
     buf = io.StringIO()
     root = logging.getLogger()
+    # watchdog: a run that does not terminate (e.g. a parser loop) must become a verdict, never a hanging check
+    import signal
+    import threading
+    armed = threading.current_thread() is threading.main_thread() and signal.getsignal(signal.SIGALRM) in (signal.SIG_DFL, None, _watchdog)
+    if armed:
+        signal.signal(signal.SIGALRM, _watchdog)
+        signal.setitimer(signal.ITIMER_REAL, RUN_LIMIT)
     try:
         with contextlib.redirect_stdout(buf), contextlib.redirect_stderr(buf):
             m.run()
@@ -110,6 +128,8 @@ def run_inproc(capture: bytes, keylog_text=None, opts=(), legacy=False, trace=Fa
     except BaseException:
         res.exc = traceback.format_exc()
     finally:
+        if armed:
+            signal.setitimer(signal.ITIMER_REAL, 0)
         sys.argv = old_argv
         for h in list(root.handlers):
             root.removeHandler(h)
